@@ -11,11 +11,13 @@ Local Open Scope Z_scope.
    - the life-cycle byte holds the configured state; the CRC words hold start 0xC00, the number of bytes emitted behind
      0xC00 and their CRC-32/MPEG-2 (they describe the bytes actually emitted);
    - parse returns the image as the application (parse (export x) = x modulo exactly these fields) and the life cycle
-     that was configured.
+     that was configured;
+   - (findings C01-F14 / F15 repaired) whatever is exported with a life cycle reaches past the life-cycle byte, and
+     whatever is CRC-signed contains the three CRC words of the BCA: shorter applications are refused.
    The image is a BinaryImage with sub-images at fixed offsets (eleven slices of the application, one of them replaced by
    the signing stage); MbiBcaProofs.oexport_contig / oreplace_ocat reduce its export to concatenation. *)
 Theorem mbi_roundtrip_bca :
-  forall (k : bcrypto) (q : bparse) (c : mbi_class) (x : bx) (im : list N),
+  (forall (k : bcrypto) (q : bparse) (c : mbi_class) (x : bx) (im : list N),
     wf_bca_fcf c = true -> (1040 <= length (b_app x))%nat -> In (b_lifecycle x) lifecycle_tags ->
     export_b k c x = Ok im ->
     length im = length (b_app x) /\
@@ -26,6 +28,10 @@ Theorem mbi_roundtrip_bca :
      rd32 964 im = G_BCA_IMG_DATA_START /\ rd32 968 im = zlen (skipn O_DATA im) /\
      rd32 972 im = Z.of_N (mbi_crc32_mpeg (skipn O_DATA im))) /\
     parse_b q c im = Ok (set_b_app (set_b_lifecycle bx_default (lifecycle_of im)) (pad4 im)) /\
-    (b_lifecycle x <> 255 -> lifecycle_of im = b_lifecycle x).
-Proof. exact roundtrip_bca_fcf. Qed.
+    (b_lifecycle x <> 255 -> lifecycle_of im = b_lifecycle x)) /\
+  (forall (k : bcrypto) (c : mbi_class) (x : bx) (im : list N),
+    wf_bca_fcf c = true -> export_b k c x = Ok im ->
+    (b_lifecycle x <> 255 -> (O_LC < length (b_app x))%nat) /\
+    (provider c SSign = Some ExportMixinCrcSignBca -> b_lifecycle x = 255 -> (O_BCA + 16 <= length (b_app x))%nat)).
+Proof. exact (conj roundtrip_bca_fcf bca_fcf_refusals). Qed.
 Print Assumptions mbi_roundtrip_bca.
